@@ -869,9 +869,34 @@ def _feat_unroll_stale_extern(sub_name, recipe):
     return walk(recipe["items"], False)
 
 
+def _feat_unroll_deep_scope(sub_name, recipe):
+    """a repeated sub-circuit without repetition ids / parent path, nested inside another sub-circuit, whose body controls on a
+    key name that the same body also measures: the control is lexically bound outside the loop (wrapped run, mapped_circuit and
+    cirq.decompose agree), but unroll_circuit_op(deep=True) flattens the inner loop first, so later iterations bind to the
+    loop's own measurement"""
+    if sub_name != "keys_distribution":
+        return False
+
+    def walk(items, depth):
+        for it in items:
+            if it["k"] != "sub":
+                continue
+            if depth >= 1 and not it["ids"] and not it["ppath"] and abs(it["reps"]) >= 2:
+                meas = {x["key"] for x in it["body"] if x["k"] == "m"}
+                ctrl = {c["key"] for x in it["body"] if x["k"] in ("cg", "sub") for c in (x.get("conds") or [])}
+                if meas & ctrl:
+                    return True
+            if walk(it["body"], depth + 1):
+                return True
+        return False
+
+    return walk(recipe["items"], 0)
+
+
 KNOWN_FEATURES = {
     "C12_unroll_greedy_earliest_reorders": lambda sub, recipe: sub == "unroll_greedy_earliest",
     "C12_unroll_deep_stale_extern_keys": _feat_unroll_stale_extern,
+    "C12_unroll_deep_loses_loop_scope": _feat_unroll_deep_scope,
 }
 
 def _documented_rejections(oracle):
